@@ -91,9 +91,20 @@ def _stub_find_location(S, E, EA):
     return stub
 
 
-def _create_stog_program(S, n):
+def _create_stog_program(S, n, moved=False):
     E, EA = set_eps(S)
     rects = [mk_rect(S, f"r{i}") for i in range(n)]
+    if moved:
+        # composition (added after seed C06-6, a bounding box cached at first use): the rectangles have been used by an earlier
+        # recognition and are then moved / resized IN PLACE through their mutable Point / Shape objects, as recenter_rectangles and the
+        # mirroring of flippable modules do; the recognition below must see the new geometry
+        if S.mode == "sym":
+            S.patch(Rectangle, "find_location", _stub_find_location(S, E, EA))
+        S.call(geo.create_stog, list(rects))
+        for i, r in enumerate(rects):
+            r.center.x = r.center.x + S.real(f"mv{i}x")
+            r.center.y = r.center.y + S.real(f"mv{i}y")
+            r.shape.w = r.shape.w + S.real(f"gr{i}w", nonneg=True)
     for r in rects:
         r.location = LOC.TRUNK          # adversarial stale roles from an earlier recognition
     snap = [(r, r.center, r.shape, r.center.x, r.center.y, r.shape.w, r.shape.h) for r in rects]
@@ -142,6 +153,12 @@ def create_stog_small(S, n):
           shards=4, shard_depth=3, budget_s=900)
 def create_stog_3(S):
     _create_stog_program(S, 3)
+
+
+@contract(P, functions=["frame.geometry.geometry.create_stog", "frame.geometry.geometry.Rectangle.find_location"], budget_s=900, shards=4, shard_depth=3,
+          scope="bounded: 2 rectangles recognised once, then moved / widened in place by arbitrary amounts, then recognised again (all values symbolic)")
+def recognition_follows_inplace_moves(S):
+    _create_stog_program(S, 2, moved=True)
 
 
 @contract(P, tier="thorough", functions=["frame.geometry.geometry.create_stog"],
@@ -218,12 +235,20 @@ def create_stog_larger_lists(chunk, replay=None):
         values = {"E": 1e-6, "EA": 1e-9}
         for i, (a0, b0, a1, b1) in enumerate(rects):
             values.update({f"r{i}x": (a0 + a1) / 2, f"r{i}y": (b0 + b1) / 2, f"r{i}w": a1 - a0, f"r{i}h": b1 - b0})
-        cs = symx.run_concrete(partial(_create_stog_program, n=k), values)
+        mv = bool(replay.get("moved")) if replay else (rng.random() < 0.4)
+        if mv:      # the list is first recognised somewhere else, then every rectangle is moved in place to its final position
+            for i in range(k):
+                dx, dy = (replay or {}).get("shift", {}).get(str(i), None) or (rng.choice([0.0, 1.5, -2.0]), rng.choice([0.0, 0.5, -1.0]))
+                values.update({f"mv{i}x": dx, f"mv{i}y": dy, f"gr{i}w": 0.0})
+                values[f"r{i}x"] -= dx
+                values[f"r{i}y"] -= dy
+        cs = symx.run_concrete(partial(_create_stog_program, n=k, moved=mv), values)
         evals += 1
         kinds[kind] = kinds.get(kind, 0) + 1
         recognised += "create_stog.first_is_a_valid_trunk" in cs.passed
         for cl in cs.failed:
-            failures.append(dict(clause=cl, k=k, rects=[list(r) for r in rects], kind=kind))
+            failures.append(dict(clause=cl, k=k, rects=[list(r) for r in rects], kind=kind, moved=mv,
+                                 shift={str(i): [values.get(f"mv{i}x", 0.0), values.get(f"mv{i}y", 0.0)] for i in range(k)} if mv else {}))
         if not samples:
             samples.append(dict(k=k, kind=kind, rects=[list(r) for r in rects]))
         if len(failures) >= 4 or replay:
